@@ -60,10 +60,15 @@ class Check:
         self.extra = {}
 
     # -- recording
-    def ob(self, rule, ok, where, found, required, key=None, why=None):
-        """where = (file, function, line)."""
+    def ob(self, rule, ok, where, found, required, key=None, why=None, scope=None):
+        """where = (file, function, line).  scope: FuncInfo(s) whose whole body the rule read
+        (a violated obligation is 'cannot decide' if that body calls a function the rules never read)."""
         if not ok and getattr(self, "ctx", None) is not None and rule not in getattr(self, "no_downgrade", ()):
             unread = unread_functions(self.ctx, where)
+            for sc in ([scope] if scope is not None and not isinstance(scope, (list, tuple)) else (scope or [])):
+                for u in unread_functions(self.ctx, Where(tuple(where), sc, sc.node)):
+                    if u not in unread:
+                        unread.append(u)
             if unread:
                 self.indeterminate(rule, where, "%s -- not decided: the construct depends on %s, which did not exist when this rule was written and is not read by it"
                                    % (str(found)[:160], ", ".join(unread)))
